@@ -348,6 +348,10 @@ pub trait Prop: Sync + Send {
     fn timeout_is_failure(&self) -> bool {
         false
     }
+    /// signature used when an isolated case of a `timeout_is_failure` property is killed
+    fn timeout_signature(&self, _payload: &Payload, _tier: Tier) -> String {
+        "hang/isolated-case-timeout".into()
+    }
     /// threads to use (solver-backed properties may want fewer/more)
     fn threads(&self) -> usize {
         default_threads()
@@ -500,7 +504,12 @@ impl Judger {
         match self.iso.as_mut() {
             None => judge(self.prop.as_ref(), payload, self.tier, rec),
             Some(iso) => {
-                let r = iso.judge(payload, rec, self.prop.case_time_limit());
+                let mut r = iso.judge(payload, rec, self.prop.case_time_limit());
+                if let Err(f) = r.as_mut() {
+                    if f.sig == "hang/isolated-case-timeout" && self.prop.timeout_is_failure() {
+                        f.sig = self.prop.timeout_signature(payload, self.tier);
+                    }
+                }
                 // collect mode is applied inside the child; timeouts and crashes arrive here
                 if collect_mode() {
                     if let Err(f) = r {
